@@ -95,6 +95,14 @@ CLAIMS = {
          "the model with the same diagnostic class; valid inputs must be accepted by both.",
          COMMON_NOTE + "diagnostic classes are obtained from message texts by a fixed prefix table (vlib/attr.py); the handler-level clauses (unit variant, nameless Debug) are covered by the correspondence, not by a separate theorem.",
          "Lean 4 theorems over oracle records + invalid-by-construction correspondence (B4)"),
+ "C14": ("Theorems over canonical leaves: bool_spellings (ignore / ignore = true / ignore(true)), ident_spellings, name_spellings, "
+         "name_off_spellings, path_spellings, int_spellings (int, string, negative literal), bound_spellings, bound_off_spellings, expr_spellings "
+         "(p = v and p(v); token and string-literal values); name_rename_alias, expression_expr_alias; cmp_shorthand, debug_type_shorthand, "
+         "debug_field_shorthand, default_field_shorthand (Trait = X shorthands); split_attribute_same + scanMetas_append + "
+         "foreign_attribute_skipped (one list vs several attributes); adjacent_params_swap (parameter order); trait order is C16's dispatch_perm. "
+         "Tie: ~400 spelling groups, every member accepted and all real token streams within a group identical (in-process), model agrees.",
+         COMMON_NOTE + "the canonical leaves are a tiny model of syn restricted to the documented token forms; that real syn yields these records is re-validated on every run because the model is fed syn's actual records; general parameter permutations are proved for adjacent swaps under the stated commutation premises.",
+         "Lean 4 theorems over canonical oracle records + spelling-group correspondence (B3)"),
 }
 
 ENGINES = [
